@@ -376,13 +376,36 @@ package memmetrics
 //@   modifies external
 //@   ensures private_copy: result != nil && fresh(result)
 
-//@ func SplitFloat64
+// The split itself is proved: a value is an outlier iff it exceeds (median + median absolute deviation) x threshold, both
+// taken over the values plus one sentinel when their number is even. median / medianAbsoluteDeviation (sort.Float64s) are
+// trusted contracts with a bounded stand-in (/verif/bounded/C10).
+//@ func median
 //@   props C10
 //@   trusted
+//@   nopanic
 //@   modifies nothing
-//@   ensures fresh_sets: result0 != nil && result1 != nil && fresh(result0)
-//@   ensures partition: forall j int :: 0 <= j && j < len(values) ==> (in(values[j], result0) <==> !in(values[j], result1))
-//@   ensures members_map_to_true: (forall v real :: in(v, result0) ==> result0[v]) && (forall v real :: in(v, result1) ==> result1[v])
+//@ func medianAbsoluteDeviation
+//@   props C10
+//@   trusted
+//@   nopanic
+//@   modifies nothing
+//@ func SplitFloat64
+//@   props C10
+//@   modifies nothing
+//@   ensures fresh_sets: good != nil && bad != nil && fresh(good) && fresh(bad)
+//@   ensures partition: forall j int :: 0 <= j && j < len(values) ==> (in(values[j], good) <==> !in(values[j], bad))
+//@   ensures members_map_to_true: (forall v real :: in(v, good) ==> good[v]) && (forall v real :: in(v, bad) ==> bad[v])
+//@   ensures outlier_iff_above_the_cut: calls(median) == 1 && calls(medianAbsoluteDeviation) == 1 && (forall j int :: 0 <= j && j < len(values) ==> (in(values[j], bad) <==> values[j] > (callres(median, 0, 0) + callres(medianAbsoluteDeviation, 0, 0)) * threshold))
+//@   ensures nothing_else_in_the_sets: (forall v real :: in(v, bad) ==> v > (callres(median, 0, 0) + callres(medianAbsoluteDeviation, 0, 0)) * threshold) && (forall v real :: in(v, good) ==> !(v > (callres(median, 0, 0) + callres(medianAbsoluteDeviation, 0, 0)) * threshold))
+//@   at_call median sentinel_for_even_counts: (len(values) % 2 == 0 ==> len(arg0) == len(values) + 1 && arg0[len(values)] == sentinel && (forall j int :: 0 <= j && j < len(values) ==> arg0[j] == values[j])) && (len(values) % 2 != 0 ==> len(arg0) == len(values) && (forall j int :: 0 <= j && j < len(values) ==> arg0[j] == values[j]))
+//@   at_call medianAbsoluteDeviation same_sample: arg0 == callarg(median, 0, 0)
+//@   loop 1 invariant -1 <= rangeindex && rangeindex < len(values) && good != nil && bad != nil && fresh(good) && fresh(bad)
+//@   loop 1 invariant forall j int :: 0 <= j && j <= rangeindex ==> (in(values[j], bad) <==> values[j] > (m + mAbs) * threshold) && (in(values[j], good) <==> !(values[j] > (m + mAbs) * threshold))
+//@   loop 1 invariant (forall v real :: in(v, bad) ==> bad[v] && v > (m + mAbs) * threshold) && (forall v real :: in(v, good) ==> good[v] && !(v > (m + mAbs) * threshold))
+//@ func SplitRatios
+//@   props C10
+//@   modifies nothing
+//@   ensures ratio_cut: calls(SplitFloat64) == 1 && callarg(SplitFloat64, 0, 0) == 1.5 && callarg(SplitFloat64, 0, 1) == 0.0 && callarg(SplitFloat64, 0, 2) == values && good == callres(SplitFloat64, 0, 0) && bad == callres(SplitFloat64, 0, 1)
 
 // ---- construction of the ratio counter and of the round-trip metrics ----------------------------------------------------------
 //@ functype memmetrics.RatioOption
